@@ -26,7 +26,9 @@ def gen(rng, n_cases):
             X = np.where((X == 0) & (rng.random_sample(X.shape) < 0.5), -0.0, X)
         # integer-coded parents (integer dtype) against float offspring
         int_pop = bool(rng.randint(6) == 0 and np.all(X[:n] == np.round(X[:n])))
-        yield {"X": X[:n], "Xo": X[n:], "int_pop": int_pop, "n_ieq": n_ieq, "n_eq": n_eq, "pseed": int(rng.randint(1000)),
+        # individuals carrying a feasibility tolerance (config["cv_eps"] > 0, as under pymoo's epsilon constraint handling)
+        cv_eps = float(rng.choice([0.02, 0.2, 1.0])) if rng.randint(5) == 0 else 0.0
+        yield {"X": X[:n], "Xo": X[n:], "int_pop": int_pop, "cv_eps": cv_eps, "n_ieq": n_ieq, "n_eq": n_eq, "pseed": int(rng.randint(1000)),
                "grid": [None, 0.5, 0.1][rng.randint(3)], "shift": float(rng.choice([-1.0, 0.0, 1.0, 3.0])),
                "warm": bool(rng.randint(3) == 0), "shared_default": bool(rng.randint(2)),
                "mode": ["normal", "normal", "normal", "off-none", "inplace"][rng.randint(5)],
@@ -49,7 +51,7 @@ def run(case, replay=None):
     from pymoo.core.evaluator import Evaluator
     from pymoode.survival.replacement import ImprovementReplacement
     cfgk = ("n_ieq", "n_eq", "pseed", "grid", "shift", "warm", "shared_default", "seed")
-    rec = Record(NAME, dict({k: case[k] for k in cfgk}, int_pop=bool(case.get("int_pop"))), {"X": np.array(case["X"], dtype=float), "Xo": np.array(case["Xo"], dtype=float)})
+    rec = Record(NAME, dict({k: case[k] for k in cfgk}, int_pop=bool(case.get("int_pop")), cv_eps=float(case.get("cv_eps") or 0.0)), {"X": np.array(case["X"], dtype=float), "Xo": np.array(case["Xo"], dtype=float)})
     mode = case.get("mode", "normal")
     rec.cfg["mode"] = mode
     if mode == "single":
@@ -65,6 +67,12 @@ def run(case, replay=None):
     off = Population.new("X", Xo.copy())
     Evaluator().eval(prob, pop)
     Evaluator().eval(prob, off)
+    if case.get("cv_eps"):
+        for P in (pop, off):
+            for ind in P:
+                ind.config = dict(ind.config)
+                ind.config["cv_eps"] = float(case["cv_eps"])
+        rec.tags.add("cv_eps>0")
     for nm, P in (("pop", pop), ("off", off)):
         rec.inp[nm + "_F"] = np.array(P.get("F"), dtype=float).reshape(n)
         rec.inp[nm + "_CV"] = np.array(P.get("CV"), dtype=float).reshape(n)
@@ -208,6 +216,12 @@ def oracle_C02(rec):
         if want != has_o:
             bad.append("slot %d: offspring %s but it is %sstrictly better and %sa duplicate" % (
                 k, "entered" if has_o else "was rejected", "" if want or dup else "not ", "" if dup else "not "))
+    if rec.cfg.get("cv_eps"):
+        # with a feasibility tolerance the final ordering (raw CV first) and the better-relation (tolerant feasibility
+        # first) are two different orders: only the slot rule is judged on these records
+        if list(rec.out["rank"]) != list(range(n)):
+            bad.append("rank attributes %s are not the positions" % list(rec.out["rank"]))
+        return bad
     # best-first order and rank = position
     F = np.concatenate([pf, of])
     CV = np.concatenate([pcv, ocv])
